@@ -375,3 +375,57 @@ def collapse_constraints_routing(h):
             ok=(r == 'CHAINED-CONSTRAINTS' and len(chained) == 2 and len(chained[0]) == len(order)
                 and all(any(x is y for y in order) for x in chained[0]) and all(any(x is y for x in chained[0]) for y in order)
                 and chained[1] == ('around', user)))
+
+
+REPORTS = {'CollapseAt': [(0, 2), (1,)], 'CollapseAs': [((0, 1),), ((0, 2), (1, 2))],
+           'CollapseWeight': [{0: (1,)}, {0: (0,), 1: (1,)}], 'CollapsePosition': [{1: ((0, 1),)}]}
+DETECTOR = {'CollapseAt': 'collapse_at', 'CollapseAs': 'collapse_as', 'CollapseWeight': 'collapse_weight', 'CollapsePosition': 'collapse_position'}
+
+
+@contract('C11/Collapsed/report-survives-the-message', ['C11'], A + '.Collapsed', native=False)
+def collapsed_round_trip(h):
+    """what a detector reports reaches Collapse() unchanged although it travels as TEXT: the condition writes
+    `<its description> at <report>` into the stop message, Terminated joins the messages of the satisfied conditions with
+    `; `, and Collapsed() parses the report back out -- keyed by the description of exactly the condition that reported it
+    (the key _update_masks later looks for), equal to what the detector returned, nothing for conditions that are not
+    collapse conditions.  (Concrete reports; text produced by CPython's str(), parsed by this interpreter's eval.)"""
+    if not h.is_sym():
+        h.unsupported('symbolic only')
+    name = h.choice('condition', sorted(REPORTS))
+    rep = h.choice('report', REPORTS[name])
+    company = h.choice('also_satisfied', ['nothing', 'VTR', 'another-collapse-condition'])
+    TM_ = 'mystic/termination.py::'
+    if isinstance(rep, dict):
+        report = h.st.alloc('dict', {k: h.st.alloc('set', list(v)) for k, v in rep.items()})
+        want = {k: set(v) for k, v in rep.items()}
+    else:
+        report = h.st.alloc('set', list(rep))
+        want = set(rep)
+    other_rep = h.st.alloc('set', [(1, 2)])
+    h.set_summaries({('mystic/collapse.py', DETECTOR[name]): lambda I, c, a, k: report,
+                     ('mystic/collapse.py', 'collapse_as' if name != 'CollapseAs' else 'collapse_at'): lambda I, c, a, k: other_rep})
+    cond = h.call(h.get(TM_ + name), generations=2)
+    doc = h.getattr(cond, '__doc__')
+    inst = h.obj(None, energy_history=h.clist([3.0, 2.0, 1.0, 1.0]), _stepmon=h.obj(None))
+    msgs = [h.call(cond, inst, True)]
+    docs = {doc: want}
+    if company == 'VTR':
+        msgs.append('VTR with {\'tolerance\': 0.005, \'target\': 0.0}')
+    elif company == 'another-collapse-condition':
+        c2 = h.call(h.get(TM_ + ('CollapseAs' if name != 'CollapseAs' else 'CollapseAt')), generations=2)
+        msgs.append(h.call(c2, inst, True))
+        docs[h.getattr(c2, '__doc__')] = {(1, 2)}
+    ok = all(isinstance(m, str) for m in msgs) and isinstance(doc, str)
+    h.check('the-stop-message-is-concrete-text', 'ok', ok=ok)
+    if not ok:
+        return
+    stop = '; '.join(msgs)
+    cached = h.choice('stop_message_cached_in___stop__', [True, False])
+    s = h.obj(A, **({'__stop__': stop} if cached else {}))
+    h.set_summaries({('mystic/collapse.py', DETECTOR[name]): lambda I, c, a, k: report,
+                     (AS, 'AbstractSolver.Terminated'): lambda I, c, a, k: stop})
+    r = h.call(h.getattr(s, 'Collapsed'), info=True)
+    from pyvc.models import _concrete_py
+    got = _concrete_py(h.I, r)
+    h.check('every-report-comes-back-equal-under-the-description-of-its-condition', 'ok', ok=(got == docs))
+    h.check('truth-value-form', 'ok', ok=(h.call(h.getattr(s, 'Collapsed')) is True))
